@@ -1,4 +1,4 @@
-(* C06 - closed forms of the cleanup.cpp primitives of Model.v *)
+(* C06 - closed forms of the cleanup.cpp / interpreter.cpp primitives of Model.v *)
 From Coq Require Import List Arith Bool Lia.
 Import ListNotations.
 From Cb Require Import C06.Model.
@@ -12,23 +12,164 @@ Proof. destruct st; unfold emit; simpl. now rewrite app_assoc. Qed.
 Lemma emit_mk : forall es a b c t, emit es (mk a b c t) = mk a b c (t ++ es).
 Proof. reflexivity. Qed.
 
-(* call_destructor: its own push_scope / pop_scope cancel *)
-Lemma call_destructor_eq : forall k st, call_destructor k st = emit [EDtor k] st.
+(* ------------------------------------------------------------------ names, frames *)
+Lemma name_eqb_eq : forall a b, name_eqb a b = true <-> a = b.
 Proof.
-  destruct st; unfold call_destructor, pop_scope_in_destructor, pop_defer_scope, push_scope, emit; simpl.
+  destruct a, b; simpl; split; intro H; try discriminate; try congruence.
+  - apply Nat.eqb_eq in H. now subst.
+  - inversion H. apply Nat.eqb_refl.
+  - apply Nat.eqb_eq in H. now subst.
+  - inversion H. apply Nat.eqb_refl.
+Qed.
+
+Lemma name_eqb_refl : forall a, name_eqb a a = true.
+Proof. intros. now apply name_eqb_eq. Qed.
+
+Lemma name_eqb_neq : forall a b, a <> b -> name_eqb a b = false.
+Proof. intros a b H. destruct (name_eqb a b) eqn:E; auto. apply name_eqb_eq in E. contradiction. Qed.
+
+Lemma name_eq_dec : forall a b : name, {a = b} + {a <> b}.
+Proof. decide equality; apply Nat.eq_dec. Defined.
+
+Lemma mem_name_false : forall x l, mem_name x l = false <-> ~ In x l.
+Proof.
+  induction l as [|y l IH]; simpl; split; auto.
+  - intros H [E|E].
+    + subst. now rewrite name_eqb_refl in H.
+    + apply orb_false_iff in H. destruct H as [_ H]. now apply IH in H.
+  - intros H. apply orb_false_iff. split.
+    + apply name_eqb_neq. intro E. apply H. left. now subst.
+    + apply IH. intro E. apply H. now right.
+Qed.
+
+Lemma lookup_cons_other : forall F x y v, x <> y -> lookup ((y, v) :: F) x = lookup F x.
+Proof. intros. simpl. now rewrite name_eqb_neq. Qed.
+
+Lemma lookup_cons_same : forall F x v, lookup ((x, v) :: F) x = Some v.
+Proof. intros. simpl. now rewrite name_eqb_refl. Qed.
+
+Lemma lookup_set_flag_other : forall F x y, x <> y -> lookup (set_flag F x) y = lookup F y.
+Proof.
+  induction F as [|[z [k b]] F IH]; intros x y H; simpl; auto.
+  destruct (name_eqb x z) eqn:E; simpl.
+  - apply name_eqb_eq in E. subst z. now rewrite !name_eqb_neq by congruence.
+  - destruct (name_eqb y z); auto.
+Qed.
+
+Lemma lookup_set_flag_same : forall F x k b, lookup F x = Some (k, b) -> lookup (set_flag F x) x = Some (k, true).
+Proof.
+  induction F as [|[z [k' b']] F IH]; intros x k b H; simpl in *; [discriminate|].
+  destruct (name_eqb x z) eqn:E; simpl; rewrite E.
+  - inversion H; subst. reflexivity.
+  - eauto.
+Qed.
+
+(* domain of a frame is not changed by setting a flag *)
+Lemma lookup_set_flag_none : forall F x y, lookup (set_flag F x) y = None <-> lookup F y = None.
+Proof.
+  induction F as [|[z [k b]] F IH]; intros x y; simpl; [tauto|].
+  destruct (name_eqb x z) eqn:E; simpl.
+  - destruct (name_eqb y z); [split; discriminate|tauto].
+  - destruct (name_eqb y z); [split; discriminate|apply IH].
+Qed.
+
+Definition flag_names (F : frame) (l : list name) : frame := fold_left set_flag l F.
+
+Lemma lookup_flag_names_other : forall l F y, ~ In y l -> lookup (flag_names F l) y = lookup F y.
+Proof.
+  induction l as [|x l IH]; intros F y H; simpl; auto.
+  unfold flag_names in *; simpl. rewrite IH by (intro; apply H; now right).
+  apply lookup_set_flag_other. intro; apply H; now left.
+Qed.
+
+Lemma lookup_flag_names_none : forall l F y, lookup (flag_names F l) y = None <-> lookup F y = None.
+Proof.
+  induction l as [|x l IH]; intros F y; simpl; [tauto|].
+  unfold flag_names in *; simpl. rewrite IH. apply lookup_set_flag_none.
+Qed.
+
+Lemma find_var_top : forall F Fs x v, lookup F x = Some v -> find_var (F :: Fs) x = Some v.
+Proof. intros. simpl. now rewrite H. Qed.
+
+Lemma mark_var_top : forall F Fs x v, lookup F x = Some v -> mark_var (F :: Fs) x = set_flag F x :: Fs.
+Proof. intros. simpl. now rewrite H. Qed.
+
+(* ------------------------------------------------------------------ call_destructor *)
+(* its own push_scope / pop_scope cancel; the guard decides *)
+Lemma call_destructor_eq : forall x t st,
+  call_destructor x t st =
+  match find_var (vars st) x with
+  | Some (k, false) => mk (dfs st) (dts st) (mark_var (vars st) x) (tr st ++ [EDtor t k])
+  | _ => st
+  end.
+Proof.
+  intros x t [a b c tr0]. unfold call_destructor; simpl.
+  destruct (find_var c x) as [[k [|]]|]; auto.
+  unfold pop_scope_in_destructor, pop_defer_scope, push_scope, emit; simpl.
   now rewrite app_nil_r.
 Qed.
 
-Lemma fold_call_destructor : forall m st,
-  fold_left (fun s k => call_destructor k s) m st = emit (map EDtor m) st.
+Lemma call_destructor_live : forall x t a b F Fs tr0 k,
+  lookup F x = Some (k, false) ->
+  call_destructor x t (mk a b (F :: Fs) tr0) = mk a b (set_flag F x :: Fs) (tr0 ++ [EDtor t k]).
 Proof.
-  induction m; intros; simpl.
-  - now rewrite emit_nil.
-  - rewrite IHm, call_destructor_eq, emit_emit. reflexivity.
+  intros. rewrite call_destructor_eq; simpl. rewrite H. reflexivity.
 Qed.
 
-Lemma run_destructors_eq : forall l st, run_destructors l st = emit (map EDtor (rev l)) st.
-Proof. intros; unfold run_destructors; apply fold_call_destructor. Qed.
+(* a pending level and the objects it stands for: every entry names a live (not yet destroyed) slot
+   of the frame *)
+Definition names (Tm : list (name * ty)) : list name := map fst Tm.
+
+Definition ent_ok (F : frame) (e : name * ty) (r : ty * nat) : Prop :=
+  snd e = fst r /\ lookup F (fst e) = Some (snd r, false).
+
+Definition lvl_ok (F : frame) (Tm : list (name * ty)) (T : list (ty * nat)) : Prop :=
+  Forall2 (ent_ok F) Tm T.
+
+Lemma Forall2_rev_ : forall A B (R : A -> B -> Prop) l l', Forall2 R l l' -> Forall2 R (rev l) (rev l').
+Proof.
+  induction 1; simpl; [constructor|].
+  apply Forall2_app; auto.
+Qed.
+
+Lemma lvl_ok_change : forall F F' Tm T, lvl_ok F Tm T ->
+  (forall x, In x (names Tm) -> lookup F' x = lookup F x) -> lvl_ok F' Tm T.
+Proof.
+  induction 1 as [|e r Tm T [H1 H2] H IH]; intros A; constructor.
+  - split; auto. rewrite A; auto. now left.
+  - apply IH. intros x Hx. apply A. now right.
+Qed.
+
+Lemma fold_call_destructor : forall m m' a b F Fs t,
+  Forall2 (ent_ok F) m m' -> NoDup (names m) ->
+  fold_left (fun s e => call_destructor (fst e) (snd e) s) m (mk a b (F :: Fs) t) =
+  mk a b (flag_names F (names m) :: Fs) (t ++ map dtor_ev m').
+Proof.
+  induction m as [|e m IH]; intros m' a b F Fs t H ND; inversion H; subst; simpl.
+  - now rewrite app_nil_r.
+  - destruct H2 as [E1 E2]. inversion ND; subst.
+    rewrite (call_destructor_live _ _ _ _ _ _ _ _ E2).
+    rewrite (IH l').
+    + unfold flag_names; simpl. f_equal. rewrite <- app_assoc. simpl. unfold dtor_ev at 2. now rewrite E1.
+    + eapply lvl_ok_change; [exact H4|]. intros x Hx. apply lookup_set_flag_other. intro; subst; contradiction.
+    + assumption.
+Qed.
+
+Lemma names_rev : forall Tm, names (rev Tm) = rev (names Tm).
+Proof. intros; unfold names; apply map_rev. Qed.
+
+Lemma names_app : forall a b, names (a ++ b) = names a ++ names b.
+Proof. intros; unfold names; apply map_app. Qed.
+
+Lemma run_destructors_ok : forall Tm T a b F Fs t, lvl_ok F Tm T -> NoDup (names Tm) ->
+  run_destructors Tm (mk a b (F :: Fs) t) =
+  mk a b (flag_names F (rev (names Tm)) :: Fs) (t ++ map dtor_ev (rev T)).
+Proof.
+  intros. unfold run_destructors. rewrite <- names_rev.
+  apply fold_call_destructor.
+  - now apply Forall2_rev_.
+  - rewrite names_rev. now apply NoDup_rev.
+Qed.
 
 (* general forms, by the shape of the two stacks *)
 Lemma pop_defer_scope_cons : forall l r b c t,
@@ -38,51 +179,71 @@ Proof. reflexivity. Qed.
 Lemma pop_defer_scope_nil : forall b c t, pop_defer_scope (mk [] b c t) = mk [] b c t.
 Proof. reflexivity. Qed.
 
-Lemma pop_destructor_scope_cc : forall D Ds T Ts c t,
-  pop_destructor_scope (mk (D :: Ds) (T :: Ts) c t) =
-  mk Ds Ts c (t ++ map EDefer (rev D) ++ map EDtor (rev T)).
+Lemma pop_destructor_scope_cc : forall D Ds Tm T Ts F Fs t, lvl_ok F Tm T -> NoDup (names Tm) ->
+  pop_destructor_scope (mk (D :: Ds) (Tm :: Ts) (F :: Fs) t) =
+  mk Ds Ts (flag_names F (rev (names Tm)) :: Fs) (t ++ map EDefer (rev D) ++ map dtor_ev (rev T)).
 Proof.
   intros. unfold pop_destructor_scope. rewrite pop_defer_scope_cons; simpl.
-  rewrite run_destructors_eq; simpl. now rewrite app_assoc.
+  erewrite run_destructors_ok by eassumption. now rewrite app_assoc.
 Qed.
 
-Lemma pop_scope_cc : forall D Ds T Ts c t,
-  pop_scope (mk (D :: Ds) (T :: Ts) c t) =
-  mk Ds Ts (pred c) (t ++ map EDefer (rev D) ++ map EDtor (rev T)).
-Proof. intros. unfold pop_scope. now rewrite pop_destructor_scope_cc. Qed.
+Lemma pop_destructor_scope_empty : forall D Ds Ts c t,
+  pop_destructor_scope (mk (D :: Ds) ([] :: Ts) c t) = mk Ds Ts c (t ++ map EDefer (rev D)).
+Proof. reflexivity. Qed.
+
+Lemma pop_scope_cc : forall D Ds Tm T Ts F Fs t, lvl_ok F Tm T -> NoDup (names Tm) ->
+  pop_scope (mk (D :: Ds) (Tm :: Ts) (F :: Fs) t) =
+  mk Ds Ts Fs (t ++ map EDefer (rev D) ++ map dtor_ev (rev T)).
+Proof. intros. unfold pop_scope. erewrite pop_destructor_scope_cc by eassumption. reflexivity. Qed.
 
 Lemma pop_scope_unfold : forall st,
-  pop_scope st = let st1 := pop_destructor_scope st in mk (dfs st1) (dts st1) (pred (scd st1)) (tr st1).
+  pop_scope st = let st1 := pop_destructor_scope st in mk (dfs st1) (dts st1) (tl (vars st1)) (tr st1).
 Proof. reflexivity. Qed.
 
 (* declaration of an object: the constructor's own scope cancels *)
-Lemma declare_obj_eq : forall k st, declare_obj k st = emit [ECtor k] (register_destructor k st).
+Lemma declare_obj_eq : forall x t id st,
+  declare_obj x t id st = emit (map ctor_ev (obj_parts t id)) (register_obj x t (bind_obj x t id st)).
 Proof.
-  intros k [a b c t]. unfold declare_obj, register_destructor; simpl.
-  destruct b as [|l r]; unfold push_scope, emit; simpl; rewrite pop_scope_cc; simpl;
-    now rewrite app_nil_r.
+  intros x t id [a b c tr0]. unfold declare_obj, register_obj, bind_obj, register_destructor; simpl.
+  destruct c as [|F Fs]; destruct b as [|l r]; destruct t; simpl;
+    unfold pop_scope, pop_destructor_scope, pop_defer_scope, push_scope, emit; simpl;
+    now rewrite ?app_nil_r.
 Qed.
 
-Lemma declare_obj_cc : forall k a T Ts c t,
-  declare_obj k (mk a (T :: Ts) c t) = mk a ((T ++ [k]) :: Ts) c (t ++ [ECtor k]).
-Proof. intros. now rewrite declare_obj_eq. Qed.
+Lemma declare_obj_cc : forall x t id a Tm Ts F Fs tr0,
+  declare_obj x t id (mk a (Tm :: Ts) (F :: Fs) tr0) =
+  mk a ((Tm ++ obj_entries x t) :: Ts) (obj_slots F x t id :: Fs) (tr0 ++ map ctor_ev (obj_parts t id)).
+Proof.
+  intros. rewrite declare_obj_eq. unfold register_obj, bind_obj, register_destructor, emit; simpl.
+  destruct t; simpl; rewrite <- ?app_assoc; reflexivity.
+Qed.
 
 Lemma defer_stmt_cc : forall k D Ds b c t,
   defer_stmt k (mk (D :: Ds) b c t) = mk ((D ++ [k]) :: Ds) b c (t ++ [EReg k]).
 Proof. reflexivity. Qed.
 
 (* execute_pre_return_cleanup: both innermost lists run (defers, then destructors) and left EMPTY in place *)
-Lemma pre_return_cleanup_cc : forall D Ds T Ts c t,
-  pre_return_cleanup (mk (D :: Ds) (T :: Ts) c t) =
-  mk ([] :: Ds) ([] :: Ts) c (t ++ map EDefer (rev D) ++ map EDtor (rev T)).
+Lemma pre_return_cleanup_cc : forall D Ds Tm T Ts F Fs t, lvl_ok F Tm T -> NoDup (names Tm) ->
+  pre_return_cleanup (mk (D :: Ds) (Tm :: Ts) (F :: Fs) t) =
+  mk ([] :: Ds) ([] :: Ts) (flag_names F (rev (names Tm)) :: Fs) (t ++ map EDefer (rev D) ++ map dtor_ev (rev T)).
 Proof.
-  intros. unfold pre_return_cleanup.
-  destruct D as [|d D], T as [|x T]; simpl; rewrite ?run_destructors_eq; unfold emit; simpl;
-    rewrite ?app_nil_r, <- ?app_assoc; reflexivity.
+  intros D Ds Tm T Ts F Fs t H ND. unfold pre_return_cleanup.
+  assert (R : forall a tt, match Tm with
+              | _ :: _ => run_destructors Tm (mk a ([] :: Ts) (F :: Fs) tt)
+              | [] => mk a (Tm :: Ts) (F :: Fs) tt end =
+              mk a ([] :: Ts) (flag_names F (rev (names Tm)) :: Fs) (tt ++ map dtor_ev (rev T))).
+  { intros a tt. destruct Tm as [|e Tm'].
+    - inversion H; subst. simpl. now rewrite app_nil_r.
+    - now apply run_destructors_ok. }
+  destruct D as [|d D']; simpl.
+  - specialize (R ([] :: Ds) t). destruct Tm; simpl in *; rewrite R; reflexivity.
+  - specialize (R ([] :: Ds) (t ++ map EDefer (rev D' ++ [d]))).
+    unfold emit; simpl. destruct Tm; simpl in *; rewrite R; now rewrite <- app_assoc.
 Qed.
 
-Lemma guard_report_same : forall g a b c t t',
-  guard_report g (mk a b c t) (mk a b c t') = mk a b c t'.
+Lemma guard_report_same : forall g a b c t a' b' c' t',
+  length a = length a' -> length b = length b' -> length c = length c' ->
+  guard_report g (mk a b c t) (mk a' b' c' t') = mk a' b' c' t'.
 Proof.
-  intros. unfold guard_report, depths_differ; simpl. now rewrite !Nat.eqb_refl.
+  intros. unfold guard_report, depths_differ; simpl. rewrite H, H0, H1. now rewrite !Nat.eqb_refl.
 Qed.
